@@ -6,6 +6,7 @@ use vstd::std_specs::ops::*;
 use vstd::std_specs::cmp::*;
 use vstd::std_specs::convert::*;
 use core::marker::PhantomData;
+use core::ops::Sub;
 
 macro_rules! ensure {
     ($cond:expr, $e:expr) => {
